@@ -3,7 +3,7 @@
 
   Three layers, all total and computable (core Lean only):
 
-  1. `Source` + `admit`: Redis's `masterTryPartialResynchronization`
+  1. `Source` + `admitPsync`: Redis's `masterTryPartialResynchronization`
      (replication.c) — TRUSTED transcription of the external rule, not of the
      repository.  Offsets on the wire use Redis numbering (the offset asked for
      is the number of the next byte wanted, i.e. consumed + 1).
@@ -64,7 +64,7 @@ deriving DecidableEq, Repr
     the backlog must exist and contain `psync_offset`
     (`backlog_off <= psync_offset <= backlog_off + histlen`). Otherwise a full
     resynchronisation at `master_repl_offset` under `replid`. -/
-def admit (s : Source) (reqId : Id) (reqOff : Int) : Reply :=
+def admitPsync (s : Source) (reqId : Id) (reqOff : Int) : Reply :=
   if reqId ≠ s.id1 ∧ (reqId ≠ s.id2 ∨ reqOff > s.switchOff + 1) then
     .full s.id1 s.masterOff
   else if s.backlog = false ∨ reqOff < s.backlogFirst ∨ reqOff > s.backlogFirst + s.backlogLen then
@@ -204,7 +204,7 @@ deriving DecidableEq, Repr
     the reply's id and offset, then the `$len` header gives the size. -/
 def sendPSync (src : Source) (id : Id) (off : Int) : PsyncRes :=
   let wire := if off ≥ 0 then off + 1 else off
-  match admit src id wire with
+  match admitPsync src id wire with
   | .cont nid => ⟨id, wire, .cont nid, if nid ≠ [] then nid else id, wire - 1, false, 0⟩
   | .full fid o => ⟨id, wire, .full fid o, fid, o, true, src.snapLen⟩
 
@@ -381,17 +381,26 @@ structure SourceWF (s : Source) : Prop where
   snap_pos : 0 < s.snapLen
 
 structure CacheWF (c : Cache) : Prop where
-  aof_ok : ∀ l r, c.aof = some (l, r) → 0 ≤ l ∧ l ≤ r
-  rdb_ok : ∀ left size, c.rdb = some (left, size) → 0 ≤ left ∧ 0 < size
-  contig : ∀ left size l r, c.rdb = some (left, size) → c.aof = some (l, r) → l = left
+  aof_ok : match c.aof with
+    | some (l, r) => 0 ≤ l ∧ l ≤ r ∧ r ≤ maxInt64      -- offsets are int64
+    | none => True
+  rdb_ok : match c.rdb with
+    | some (left, size) => 0 ≤ left ∧ 0 < size
+    | none => True
+  contig : match c.rdb, c.aof with
+    | some (left, _), some (l, _) => l = left          -- the log starts at the snapshot's offset
+    | _, _ => True
 
 /-- what C05/C08 provide: the bytes held under `runId` are `hist runId`, and the
     snapshot held is a snapshot at `left` of a history agreeing with `runId`'s
     below `left`. -/
 structure CacheOK (w : World) (c : Cache) (d : CData) : Prop where
-  aof_hist : ∀ l r, c.aof = some (l, r) → ∀ n, l ≤ n → n < r → d.aofByte n = w.hist c.runId n
-  rdb_tok : ∀ left size, c.rdb = some (left, size) →
-    d.rdbTok.2 = left ∧ ∀ n, 0 ≤ n → n < left → w.hist d.rdbTok.1 n = w.hist c.runId n
+  aof_hist : match c.aof with
+    | some (l, r) => ∀ n, l ≤ n → n < r → d.aofByte n = w.hist c.runId n
+    | none => True
+  rdb_tok : match c.rdb with
+    | some (left, _) => d.rdbTok.2 = left ∧ ∀ n, 0 ≤ n → n < left → w.hist d.rdbTok.1 n = w.hist c.runId n
+    | none => True
 
 /-- PSYNC2: the previous history agrees with the current one below the switch offset -/
 def Agree (w : World) (s : Source) : Prop :=
